@@ -132,6 +132,7 @@ type Task struct {
 	blockEpoch int64
 	blockAddr  uintptr
 	pend       reply // value part of the next reply
+	unborn     bool  // caller task whose goroutine has not been created yet
 	reqs       int64 // requests other than plain yields this task has made (sync operations, pool, clock, channels...)
 	prio       int
 	parent     int
